@@ -4,7 +4,10 @@
      tree := L <n> { <id> <dist> }*n          a leaf with n items (id: small int, dist: integer)
            | N <n> { <lb> tree }*n            an inner node with n children, each with its key
            | E                                 tr.root == nil
-   knn <tree>                                  -> "<id>:<dist>,..." | "-" | "FUEL"
+   knn <tree>                                  -> "<id>:<dist>,..." | "-" | "FUEL"      (list queue)
+   knnheap <tree>                              -> the same with the transcribed binary heap
+   heap <key>...                               -> push the keys in this order, pop until empty:
+                                                  the popped keys "k,k,..." (must be sorted)
    nearby <maxdist> <cursor> <limit> <mask> <tree>
         mask: letter a / r per item id (position = id), "-" = all accepted
         -> "<cursor> <id>:<dist>,..." | "FUEL"
@@ -52,16 +55,27 @@ let show (l : (item * z) list) : string =
 
 let handle (toks : string list) : string =
   match toks with
+  | "heap" :: keys ->
+      let q = List.fold_left (fun q k -> heap_push q (z_of_string k, QItem (0, Z0))) [] keys in
+      let rec drain q acc = match heap_pop q with
+        | None -> List.rev acc
+        | Some ((k, _), q') -> drain q' (string_of_z k :: acc) in
+      (match drain q [] with [] -> "-" | l -> String.concat "," l)
+  | "knnheap" :: t ->
+      let (root, _) = parse_tree t in
+      (match knn dist_item dist_rect heap_push heap_pop root with
+       | Done l -> show l
+       | OutOfFuel -> "FUEL")
   | "knn" :: t ->
       let (root, _) = parse_tree t in
-      (match knn dist_item dist_rect root with
+      (match knn dist_item dist_rect list_push pop_min root with
        | Done l -> show l
        | OutOfFuel -> "FUEL")
   | "nearby" :: maxd :: cursor :: limit :: mask :: t ->
       let (root, _) = parse_tree t in
       let test (((id, _), _) : item * z) =
         mask = "-" || (id >= 0 && id < String.length mask && mask.[id] = 'a') in
-      (match nearby_query dist_item dist_rect test root (z_of_string maxd) (n_of_str cursor)
+      (match nearby_query dist_item dist_rect heap_push heap_pop test root (z_of_string maxd) (n_of_str cursor)
                (eff_limit (n_of_str limit)) with
        | Done (l, c) -> Printf.sprintf "%s %s" (str_of_n c) (show l)
        | OutOfFuel -> "FUEL")
